@@ -273,7 +273,18 @@ static void DecodeFixed(Word Index) {
 static void DecodeMOV(Word Index) {
     UNUSED(Index);
 
-    if (ChkArgCnt(2, 2) && ChkMinCPU(CPU68HC08)) {
+    /* MOV ,X+,opr: the post-increment source written with a leading comma */
+    if ((ArgCnt == 3) && !*ArgStr[1].str.p_str && !as_strcasecmp(ArgStr[2].str.p_str, "X+")) {
+        if (ChkMinCPU(CPU68HC08)) {
+            OpSize = eSymbolSize8Bit;
+            DecodeAdr(3, 3, MModDir);
+            if (AdrMode == ModDir) {
+                BAsmCode[0] = 0x7e;
+                BAsmCode[1] = AdrVals[0];
+                CodeLen     = 2;
+            }
+        }
+    } else if (ChkArgCnt(2, 2) && ChkMinCPU(CPU68HC08)) {
         OpSize = eSymbolSize8Bit;
         DecodeAdr(1, 1, MModImm | MModDir | MModIxP);
         switch (AdrMode) {
